@@ -97,6 +97,8 @@ type vfH struct {
 	listShort    int
 	closeErr     error                    // returned by every object Close (the close still counts)
 	ioFailFrom   int64                    // when > 0: ReadAt/WriteAt at or beyond this offset fail (after their gate)
+	ioErr        error                    // when set: every ReadAt/WriteAt moves at most ioErrPartial bytes and returns this error with that count
+	ioErrPartial int
 	listAtErr    func(path string) error  // when it returns an error, the lister for that path fails its ListAt with it (no entries)
 	listOverride map[string][]os.FileInfo // directory path -> entries to list verbatim
 	infoOverride map[string]os.FileInfo   // path -> the FileInfo Stat/Lstat (and so FSTAT) report verbatim
@@ -610,6 +612,19 @@ func (o *vfHObj) readAt(b []byte, off int64) (int, error) {
 	if o.h.ioFailFrom > 0 && off >= o.h.ioFailFrom {
 		return 0, errVfIO
 	}
+	o.h.mu.Lock()
+	ioErr, ioPart := o.h.ioErr, o.h.ioErrPartial
+	o.h.mu.Unlock()
+	if ioErr != nil {
+		// "n bytes, then this error": the documented io.ReaderAt shape of a partial read
+		o.file.mu.Lock()
+		defer o.file.mu.Unlock()
+		n := 0
+		if off < int64(len(o.file.data)) && ioPart > 0 {
+			n = copy(b[:min(ioPart, len(b))], o.file.data[off:])
+		}
+		return n, ioErr
+	}
 	// like any context-aware backend: a request whose context is gone is not served (seed C14-d) - the
 	// package cancels it when the handle is closed or the session ends, never while a call is in progress
 	if err := o.ctx.Err(); err != nil {
@@ -637,6 +652,21 @@ func (o *vfHObj) writeAt(b []byte, off int64) (int, error) {
 	o.mu.Unlock()
 	if o.h.ioFailFrom > 0 && off >= o.h.ioFailFrom {
 		return 0, errVfIO
+	}
+	o.h.mu.Lock()
+	ioErr, ioPart := o.h.ioErr, o.h.ioErrPartial
+	o.h.mu.Unlock()
+	if ioErr != nil {
+		o.file.mu.Lock()
+		defer o.file.mu.Unlock()
+		n := min(ioPart, len(b))
+		if off >= 0 && n > 0 {
+			for int64(len(o.file.data)) < off+int64(n) {
+				o.file.data = append(o.file.data, 0)
+			}
+			copy(o.file.data[off:], b[:n])
+		}
+		return n, ioErr
 	}
 	if err := o.ctx.Err(); err != nil {
 		return 0, err
